@@ -182,7 +182,12 @@ func (w *MarkdownWriter) writeQuote(para *document.Paragraph) error {
 
 // writeCodeBlock 写入代码块
 func (w *MarkdownWriter) writeCodeBlock(para *document.Paragraph) error {
-	text := w.extractParagraphText(para)
+	// 代码块内的内容是字面文本，不能加入强调标记
+	var raw strings.Builder
+	for _, run := range para.Runs {
+		raw.WriteString(run.Text.Content)
+	}
+	text := raw.String()
 	if strings.TrimSpace(text) == "" {
 		return nil
 	}
